@@ -491,9 +491,29 @@ class XmlTime(NamedTuple):
 DurationType = XmlTime | XmlDateTime
 
 
+def _days_from_civil(year: int, month: int, day: int) -> int:
+    """Days since 1970-01-01 in the proleptic Gregorian calendar, for any year."""
+    year -= month <= 2
+    era = year // 400
+    yoe = year - era * 400
+    doy = (153 * ((month + 9) % 12) + 2) // 5 + day - 1
+    doe = yoe * 365 + yoe // 4 - yoe // 100 + doy
+    return era * 146097 + doe - 719468
+
+
+def _timeline(value: DurationType) -> int:
+    """The exact position on the timeline in nanoseconds, normalized to UTC."""
+    seconds = value.hour * DS_HOUR + value.minute * DS_MINUTE + value.second
+    if isinstance(value, XmlDateTime):
+        seconds += _days_from_civil(value.year, value.month, value.day) * DS_DAY
+
+    seconds += (value.offset or 0) * DS_OFFSET
+    return seconds * 1_000_000_000 + value.fractional_second
+
+
 def _cmp(a: DurationType, b: DurationType, op: Callable) -> bool:
     if isinstance(b, a.__class__):
-        return op(a.duration, b.duration)
+        return op(_timeline(a), _timeline(b))
 
     return NotImplemented
 
